@@ -188,9 +188,45 @@ def variadic_histories(out, drv, facts, rng, thorough):
     out.count("variadic_histories", len(hists))
 
 
+ORACLE_EXPRS = ["a/2", "a/2*2", "(a+1)/2", "-a/4", "a/b", "a*b/4", "a**2", "a**0.5", "a%3", "a/1", "(a+b)/2+0.5"]
+
+
+def oracle_symbolic(out):
+    """symbolic axes OUTSIDE the modelled integer fragment (true division, powers, remainders): the statement itself is
+    the oracle — the axis must equal the value of its expression over the bound sizes, as Python computes it; a value
+    that is not a whole number equals no size"""
+    import jaxtyping
+    from impl import Duck
+
+    for expr in ORACLE_EXPRS:
+        for a in range(0, 7):
+            for b in (1, 2, 4):
+                try:
+                    val = eval(expr, {"__builtins__": {}}, {"a": a, "b": b})
+                except ZeroDivisionError:
+                    continue
+                if isinstance(val, complex):
+                    continue
+                for size in range(0, 6):
+                    got = []
+
+                    def body():
+                        got.append(impl.check_once(Duck((a, b), "float32"), jaxtyping.Float[Duck, "a b"]))
+                        got.append(impl.check_once(Duck((size,), "float32"), jaxtyping.Float[Duck, expr]))
+
+                    with jaxtyping.jaxtyped("context"):
+                        body()
+                    want = "T" if val == size else "F"
+                    out.case(("oracle", expr, a, b, size), True, sample={"expr": expr, "a": a, "b": b, "size": size, "value": repr(val)})
+                    if got != ["T", want]:
+                        out.violation(f"oracle:{expr}", f"with a={a}, b={b} the symbolic axis {expr!r} has the value {val!r}; an axis of size {size} must be "
+                                      f"{'accepted' if want == 'T' else 'rejected'}, observed verdicts {got}", {"expr": expr, "a": a, "b": b, "size": size})
+
+
 def run(tier, seed, out, drv, facts):
     rng = Rng(seed, "C01")
     thorough = tier == "thorough"
+    oracle_symbolic(out)
     # corpus first
     # 1. exhaustive small scope
     batch = []
